@@ -217,9 +217,30 @@ Section Keep.
   Proof.
     induction f as [|f IH]; intros acc; cbn [read_available]; [apply keeps_ret|].
     eapply keeps_catch with (ok1 := fun e => e = EQueueEmpty \/ e = EProtocol).
-    - apply keeps_bind; [apply keeps_lan_read_nowait|]. intros x. eapply keeps_weaken; [apply IH|]. intuition.
+    - apply keeps_bind.
+      + eapply keeps_catch with (ok1 := fun e => e = EQueueEmpty \/ e = EProtocol).
+        * apply keeps_bind; [apply keeps_lan_read_nowait|]. intros x. apply keeps_ret.
+        * intros e. apply keeps_ret.
+        * intros e Hc Ho. exact Ho.
+      + intros r. eapply keeps_weaken; [apply IH|]. intuition.
     - intros e. apply keeps_ret.
     - intros e Hc [->| ->]; [discriminate Hc|reflexivity].
+  Qed.
+
+  (* after fix F10: the non-blocking reads before and after a request never raise - an invalid packet waiting in the
+     queue (a late handshake reply, an error packet, data under an old key) is skipped *)
+  Lemma read_available_never_raises f : forall acc, keeps P (read_available f acc) (fun _ => False).
+  Proof.
+    induction f as [|f IH]; intros acc; cbn [read_available]; [apply keeps_ret|].
+    eapply keeps_catch with (ok1 := fun e => e = EQueueEmpty).
+    - apply keeps_bind.
+      + eapply keeps_catch with (ok1 := fun e => e = EQueueEmpty \/ e = EProtocol).
+        * apply keeps_bind; [apply keeps_lan_read_nowait|]. intros x. apply keeps_ret.
+        * intros e. apply keeps_ret.
+        * intros e Hc [->| ->]; [reflexivity|discriminate Hc].
+      + intros r. eapply keeps_weaken; [apply IH|]. intros e [].
+    - intros e. apply keeps_ret.
+    - intros e Hc ->. discriminate Hc.
   Qed.
 End Keep.
 
@@ -539,7 +560,8 @@ Qed.
 Lemma quietm_read_available f : forall acc, quietm (read_available f acc).
 Proof.
   induction f as [|f IH]; intros acc; cbn [read_available]; [apply quietm_ret|].
-  apply quietm_catch; [|intros e; apply quietm_ret]. apply quietm_bind; [apply quietm_lan_read|]. intros x. apply IH.
+  apply quietm_catch; [|intros e; apply quietm_ret]. apply quietm_bind; [|intros r; apply IH].
+  apply quietm_catch; [|intros e; apply quietm_ret]. apply quietm_bind; [apply quietm_lan_read|]. intros x. apply quietm_ret.
 Qed.
 Lemma quietm_queue_len : quietm queue_len.
 Proof. unfold queue_len. apply quietm_bind; [apply quietm_the_conn|]. intros c. apply quietm_ret. Qed.
